@@ -17,6 +17,13 @@ type Queue[T any] struct {
 	wait   []*chan struct{}
 }
 
+// entry gives each value added to a queue its own address.
+// Entries are tracked by their pointer, and pointers to distinct zero sized values (e.g. struct{}) are equal.
+type entry[T any] struct {
+	val T
+	_   byte
+}
+
 // Opts is used to configure a new priority queue.
 type Opts[T any] struct {
 	Max  int                           // maximum concurrent entries, defaults to 1.
@@ -48,15 +55,16 @@ func (q *Queue[T]) Acquire(ctx context.Context, e T) (func(), error) {
 	if found {
 		return func() {}, nil
 	}
+	ep := &(&entry[T]{val: e}).val
 	q.mu.Lock()
 	if len(q.active)+len(q.queued) < q.max {
-		q.active = append(q.active, &e)
+		q.active = append(q.active, ep)
 		q.mu.Unlock()
-		return q.releaseFn(&e), nil
+		return q.releaseFn(ep), nil
 	}
 	// limit reached, add to queue and wait
 	w := make(chan struct{}, 1)
-	q.queued = append(q.queued, &e)
+	q.queued = append(q.queued, ep)
 	q.wait = append(q.wait, &w)
 	q.mu.Unlock()
 	verifWait(w, ctx.Done())
@@ -66,7 +74,7 @@ func (q *Queue[T]) Acquire(ctx context.Context, e T) (func(), error) {
 		verifYield("acquire-ctxdone")
 		// context abort, remove queued entry
 		q.mu.Lock()
-		if i := slices.Index(q.queued, &e); i >= 0 {
+		if i := slices.Index(q.queued, ep); i >= 0 {
 			q.queued = slices.Delete(q.queued, i, i+1)
 			q.wait = slices.Delete(q.wait, i, i+1)
 			q.mu.Unlock()
@@ -75,11 +83,11 @@ func (q *Queue[T]) Acquire(ctx context.Context, e T) (func(), error) {
 		q.mu.Unlock()
 		verifYield("acquire-ctxdone-race")
 		// queued entry found, assume race condition with context and entry being released, release next entry
-		q.release(&e)
+		q.release(ep)
 		return nil, ctx.Err()
 	case <-w:
 		verifYield("acquire-woken")
-		return q.releaseFn(&e), nil
+		return q.releaseFn(ep), nil
 	}
 }
 
@@ -100,8 +108,9 @@ func (q *Queue[T]) TryAcquire(ctx context.Context, e T) (func(), error) {
 	q.mu.Lock()
 	defer q.mu.Unlock()
 	if len(q.active)+len(q.queued) < q.max {
-		q.active = append(q.active, &e)
-		return q.releaseFn(&e), nil
+		ep := &(&entry[T]{val: e}).val
+		q.active = append(q.active, ep)
+		return q.releaseFn(ep), nil
 	}
 	return nil, nil
 }
